@@ -814,6 +814,143 @@ def reuse_history(ctx):
             ctx.fail(full, "[path quantities read after the caller overwrote its endpoint arrays] " + what, rec)
     ctx.extra["reuse_history"] = {"histories": done, "max_excess": stats.get("max_excess")}
 
+
+# ---------------------------------------------------------------------------- op histories on ONE tracer object
+def _geom_of(fp, tp):
+    fp, tp = [float(x) for x in fp], [float(x) for x in tp]
+    return {"kind": "history", "z_from": fp[2], "z_to": tp[2], "rho": math.hypot(tp[0] - fp[0], tp[1] - fp[1]),
+            "phi": math.atan2(tp[1] - fp[1], tp[0] - fp[0]), "x0": fp[0], "y0": fp[1]}
+
+
+def apply_op(tr, op):
+    """One public mutation route of a live tracer.  Returns nothing; the tracer is changed."""
+    k = op["op"]
+    if k == "assign":
+        setattr(tr, op["attr"], np.array(op["value"], dtype=float))
+    elif k == "augassign":
+        if op["attr"] == "to_point":
+            tr.to_point += np.array(op["step"], dtype=float)
+        else:
+            tr.from_point += np.array(op["step"], dtype=float)
+    elif k == "inplace-reassign":
+        arr = getattr(tr, op["attr"])
+        arr[:] = np.array(op["value"], dtype=float)      # edit the array the tracer holds ...
+        setattr(tr, op["attr"], arr)                      # ... and assign the very same object again
+    elif k == "ice":
+        tr.ice = build_ice(op["ice"])
+    elif k == "dz":
+        tr.dz = op["dz"]
+    else:
+        raise ValueError(k)
+
+
+def run_history(ctx, tracer, dz, icep, g0, ops, stats, collect):
+    """Build one tracer, read .solutions, apply each op and read .solutions again; after every read each returned path is
+    judged (ray oracle) against the tracer's CURRENT endpoints / ice / dz, and the launch angles are compared with a
+    freshly built tracer.  collect(key, what, step) receives the failures."""
+    import pyrex.ray_tracing as rt
+    cls = getattr(rt, tracer)
+    fp, tp = endpoints(g0)
+    mk = (lambda f, t, ip, d: cls(np.array(f, dtype=float), np.array(t, dtype=float), build_ice(ip), dz=d)) if tracer == "BasicRayTracer" \
+        else (lambda f, t, ip, d: cls(np.array(f, dtype=float), np.array(t, dtype=float), build_ice(ip)))
+    tr = mk(fp, tp, icep, dz)
+    cur = {"fp": list(fp), "tp": list(tp), "ice": icep, "dz": dz}
+    for step in range(len(ops) + 1):
+        if step > 0:
+            op = ops[step - 1]
+            apply_op(tr, op)
+            if op["op"] in ("assign", "inplace-reassign"):
+                cur["fp" if op["attr"] == "from_point" else "tp"] = list(op["value"])
+            elif op["op"] == "augassign":
+                key = "fp" if op["attr"] == "from_point" else "tp"
+                cur[key] = [float(x) for x in (np.array(cur[key], dtype=float) + np.array(op["step"], dtype=float))]
+            elif op["op"] == "ice":
+                cur["ice"] = op["ice"]
+            elif op["op"] == "dz":
+                cur["dz"] = op["dz"]
+        now_f, now_t = [float(x) for x in tr.from_point], [float(x) for x in tr.to_point]
+        if now_f != cur["fp"] or now_t != cur["tp"]:
+            collect("endpoints-not-updated", "after %s the tracer holds endpoints %r -> %r, the operations gave %r -> %r" % (
+                ops[step - 1] if step else "construction", now_f, now_t, cur["fp"], cur["tp"]), step)
+        g = _geom_of(now_f, now_t)
+        paths, err = solve(tr)
+        if paths is None:
+            collect("tracer-raises", "solutions raises %s" % err, step)
+            continue
+        fresh, ferr = solve(mk(now_f, now_t, cur["ice"], cur["dz"]))
+        if fresh is not None and [(bool(q.direct), float(q.theta0)) for q in fresh] != [(bool(q.direct), float(q.theta0)) for q in paths]:
+            collect("differs-from-fresh-tracer", "after %d operation(s) the tracer returns launch angles %s, a tracer freshly built from its current "
+                    "endpoints %r -> %r returns %s" % (step, [(bool(q.direct), float(q.theta0)) for q in paths], now_f, now_t,
+                                                        [(bool(q.direct), float(q.theta0)) for q in fresh]), step)
+        for key, what in judge(ctx, tracer, cur["dz"], cur["ice"], g, paths, tr, stats):
+            collect(key, "[after %d operation(s) on one tracer object; judged against its current endpoints] %s" % (step, what), step)
+
+
+def op_histories(ctx):
+    rng = ctx.rng
+    stats = {}
+    n = ctx.n(10, 80)
+    done = attempts = 0
+    kinds = {}
+    while done < n and attempts < 8 * n:
+        attempts += 1
+        icep = pick_ice(rng)
+        tracer, dz = ("BasicRayTracer", rng.choice([1.0, 5.0])) if done % 3 == 2 else ("SpecializedRayTracer", 1.0)
+
+        def new_geom():
+            for _ in range(20):
+                gg = geometry(rng, icep, rng.choice(["shallow", "shallow", "cross"]) if tracer != "BasicRayTracer" else "shallow", dz)
+                if gg is not None and gg["rho"] is not None and not (tracer == "BasicRayTracer" and min(gg["z_from"], gg["z_to"]) < -600):
+                    return gg
+            return None
+        g0 = new_geom()
+        if g0 is None:
+            continue
+        fp, tp = endpoints(g0)
+        cur_f, cur_t = list(fp), list(tp)
+        ops = []
+        for _ in range(rng.randint(2, 4)):
+            kind = rng.choice(["assign", "augassign", "augassign", "inplace-reassign", "inplace-reassign", "ice", "dz"])
+            if kind in ("assign", "augassign", "inplace-reassign"):
+                g2 = new_geom()
+                if g2 is None:
+                    continue
+                f2, t2 = endpoints(g2)
+                attr = rng.choice(["from_point", "to_point"])
+                # move one endpoint only: keep the other, take the new point's depth and a horizontal shift
+                old = cur_f if attr == "from_point" else cur_t
+                target = [old[0] + rng.uniform(-60, 60), old[1] + rng.uniform(-60, 60), (f2 if attr == "from_point" else t2)[2]]
+                if abs(target[2] - (cur_t if attr == "from_point" else cur_f)[2]) < 12:
+                    continue
+                if kind == "augassign":
+                    stepv = [target[i] - old[i] for i in range(3)]
+                    ops.append({"op": kind, "attr": attr, "step": stepv})
+                    target = [float(x) for x in (np.array(old, dtype=float) + np.array(stepv, dtype=float))]
+                else:
+                    ops.append({"op": kind, "attr": attr, "value": target})
+                if attr == "from_point":
+                    cur_f = target
+                else:
+                    cur_t = target
+            elif kind == "ice":
+                ip2 = dict(icep, n0=icep["n0"] * rng.uniform(0.98, 1.02), a=icep["a"] * rng.uniform(0.9, 1.1))
+                ops.append({"op": "ice", "ice": ip2})
+            else:
+                ops.append({"op": "dz", "dz": rng.choice([0.5, 1.0, 2.0, 5.0])})
+            kinds[kind] = kinds.get(kind, 0) + 1
+        if not ops:
+            continue
+        done += 1
+        rec = {"kind": "history", "tracer": tracer, "dz": dz, "ice": icep, "g": g0, "ops": ops}
+        ctx.case(key=("history", tracer, dz, json.dumps(g0, sort_keys=True), json.dumps(ops, sort_keys=True)),
+                 sample={"tracer": tracer, "geometry": g0, "ops": ops})
+
+        def collect(key, what, step, rec=rec):
+            full = key if key in (K_BETA_TOL, K_LINK, K_LOG1) else "history:%s:%s:%r:%r:step%d" % (key, tracer, g0["z_from"], g0["z_to"], step)
+            ctx.fail(full, "%s %s" % (tracer, what), rec)
+        run_history(ctx, tracer, dz, icep, g0, ops, stats, collect)
+    ctx.extra["op_histories"] = {"histories": done, "ops": kinds}
+
 # ---------------------------------------------------------------------------- entry points
 def run(ctx):
     ctx.rule = ("formula correspondence: (ice parameters, depth, beta, deep flag) tuples incl. beta at / around beta_tolerance, next to and beyond the "
@@ -846,6 +983,7 @@ def run(ctx):
         ctx.oblige("gen:Gen_ray", False, "translation failed (fail-closed): %s" % e)
         fixed_findings(ctx)
         reuse_history(ctx)
+        op_histories(ctx)
         probes_and_e2e(ctx, do_model=False, escalate=2)
         return
     ok = ctx.coq_build("C01")
@@ -856,6 +994,7 @@ def run(ctx):
         ok = False
     fixed_findings(ctx)
     reuse_history(ctx)
+    op_histories(ctx)
     try:
         probes_and_e2e(ctx, do_model=True, escalate=1 if ok else 2)
     except RuntimeError as e:
@@ -865,6 +1004,18 @@ def run(ctx):
 
 def replay(ctx, obj):
     print(json.dumps(obj, indent=1, default=str))
+    if obj.get("kind") == "history":
+        fails = []
+
+        def collect(key, what, step):
+            if key in (K_BETA_TOL, K_LINK, K_LOG1):
+                print(" (open known finding %s at step %d)" % (key, step))
+                return
+            fails.append((step, key, what))
+            print(" FAIL step %d %s: %s" % (step, key, what))
+        run_history(ctx, obj["tracer"], obj["dz"], obj["ice"], obj["g"], obj["ops"], {}, collect)
+        print("history of %d operation(s) on one %s: %d failure(s)" % (len(obj["ops"]), obj["tracer"], len(fails)))
+        return 1 if fails else 0
     if obj.get("kind") == "reuse":
         import pyrex.ray_tracing as rt
         icep, g = obj["ice"], obj["g"]
